@@ -139,6 +139,30 @@ def run(ctx):
                 elif rc != 0:
                     res.violations.append(vlib.Violation("-race run failed: %s" % err[:200].decode("latin1"), {"args": fmt}))
             shutil.rmtree(d, ignore_errors=True)
+        # degenerate scans (no tree, no commit reached: every loop of the second pipeline's consumer is empty, so nothing
+        # orders the consumer against the feeder goroutine) under the race detector
+        deg = S.Scenario()
+        b1 = deg.add({"kind": "blob", "data": b"only a blob\n"})
+        g1 = deg.add({"kind": "tag", "target": b1, "name": b"tb"})
+        t0 = deg.add({"kind": "tree", "entries": [(0o100644, b"f", b1)]})
+        c0 = deg.add({"kind": "commit", "tree": t0, "parents": []})
+        deg.refs += [(b"refs/tags/blob", b1), (b"refs/tags/tagged-blob", g1), (b"refs/heads/main", c0)]
+        deg.compute()
+        d = os.path.join(eng.scratch, "degenerate")
+        deg.materialise(d)
+        for args in (["--tags"], ["--include", "refs/tags/blob"], [deg.oids[b1].hex()], [deg.oids[g1].hex()], ["--exclude", "refs/"], ["--branches"]):
+            for k in range(2 if quick else 8):
+                env = S.clean_env({"GOMAXPROCS": str([16, 2, 4, 1][k % 4]), "GORACE": "halt_on_error=0 exitcode=66"})
+                rc, out, err = S.run_sizer(race, d, ["--json", "--progress"] + args, env=env, timeout=120)
+                nraces += 1
+                res.case(("race-degenerate", tuple(args), k), True)
+                if b"DATA RACE" in err or rc == 66:
+                    res.violations.append(vlib.Violation("the race detector reported a data race", {"args": args, "repository": "blob, tag of the blob, one commit"},
+                                                         observed=err[:1500].decode("latin1")))
+                    break
+                elif rc != 0:
+                    res.violations.append(vlib.Violation("-race run failed: %s" % err[:200].decode("latin1"), {"args": args}))
+        shutil.rmtree(d, ignore_errors=True)
         res.coverage_extra["race_detector_runs"] = nraces
     finally:
         eng.close()
